@@ -45,7 +45,8 @@ type ABCfg struct {
 	MaxSteps int     `json:"max_steps"`
 	CloseMix int     `json:"close_mix"` // 0 shutdown-only, 1 also Close, 2 also abrupt close
 	Stalls   bool    `json:"reader_stalls"`
-	DropOnly bool    `json:"drop_only"` // C02's fault model: drops of non-RST packets only, no network delay
+	DropOnly bool    `json:"drop_only"`             // C02's fault model: drops of non-RST packets only, no network delay
+	DropIDs  []int   `json:"drop_frames,omitempty"` // fault positions chosen up front: the n-th emissions of the run are lost
 	MeasureK bool    `json:"-"`
 }
 
@@ -222,6 +223,16 @@ func NewABWorld(seed uint64, cfg ABCfg) *ABWorld {
 				t, ok := peekTCP(f)
 				return ok && t.Flags&0x04 != 0
 			}}
+		}
+	}
+	if len(cfg.DropIDs) > 0 {
+		w.DropIDs = map[int]bool{}
+		for _, id := range cfg.DropIDs {
+			w.DropIDs[id] = true
+		}
+		w.DropGuard = func(f *Frame) bool {
+			t, ok := peekTCP(f)
+			return ok && t.Flags&0x04 != 0
 		}
 	}
 	for i := 0; i < cfg.NConn; i++ {
